@@ -52,7 +52,7 @@ def r2(orig, rule):
 def r3(orig, rule):
     # repeat(V).take(N).collect()  ->  vec![V; N]      (anywhere in a statement)
     s = norm(orig)
-    m = re.search(r'repeat \( (.+?) \) \. take \( (.+?) \) \. collect \( \)', s)
+    m = re.search(r'(?:(?:std :: )?iter :: )?repeat \( (.+?) \) \. take \( (.+?) \) \. collect \( \)', s)
     if not m:
         raise NoMatch('no repeat().take().collect() in %r' % s)
     return s[:m.start()] + 'vec![%s; %s]' % (m.group(1), m.group(2)) + s[m.end():]
@@ -336,7 +336,24 @@ def rbw(orig, rule):
     return out
 
 
+def r1b(orig, rule):
+    # for (I, X) in E.iter().enumerate() {   ->  for I in 0..E.len() { let X = &E[I];      (X bound to a reference, as the iterator yields)
+    s = norm(orig)
+    m = _m(r'for \( (%s) , (%s) \) in (.+?) \. iter \( \) \. enumerate \( \) \{' % (ID, ID), s)
+    i, x, e = m.groups()
+    return 'for %s in 0..%s.len() { let %s = &%s[%s];' % (i, e, x, e, i)
+
+
+def r1t(orig, rule):
+    # for (I, &X) in E.iter().enumerate().take(N) {   ->  let __n = min(N, E.len()); for I in 0..__n { let X = E[I];
+    s = norm(orig)
+    m = _m(r'for \( (%s) , & (%s) \) in (.+?) \. iter \( \) \. enumerate \( \) \. take \( (.+) \) \{' % (ID, ID), s)
+    i, x, e, n = m.groups()
+    return 'let __n = std::cmp::min(%s, %s.len()); for %s in 0..__n { let %s = %s[%s];' % (n, e, i, x, e, i)
+
+
 GENERATORS = {
+    'R1b': r1b, 'R1t': r1t,
     'RBW': rbw,
     'R4m': r4m,
     'R12m': r12m,
